@@ -158,43 +158,74 @@ func TestVerifC09Compaction(t *testing.T) {
 		// corrupt one block of a group file before the file store maps it
 		skip := map[string]bool{}
 		if inj == "corrupt" {
+			// Known finding compaction-spins-forever-on-undecodable-block: a block that fails to
+			// DECODE makes tsmBatchKeyIterator.Next loop forever. The main campaign therefore only
+			// corrupts blocks that the compactor provably never decodes: the key lives in exactly
+			// one file of the group, that file has no tombstone naming the key, and either the
+			// mode is fast (blocks are passed through) or the key has a single block.
 			var cands [][3]int
 			for fi, fl := range c.files {
 				if !inGroup[fi] {
 					continue
 				}
 				for k, lay := range fl.blocks {
+					holders := 0
+					for fj, o := range c.files {
+						if inGroup[fj] && len(o.blocks[k]) > 0 {
+							holders++
+						}
+					}
+					tombed := false
+					for _, tb := range fl.tombs {
+						for _, tk := range tb.keys {
+							if tk == k {
+								tombed = true
+							}
+						}
+					}
 					for b := range lay {
-						cands = append(cands, [3]int{fi, k, b})
+						if holders == 1 && !tombed && (mode == "fast" || len(lay) == 1) {
+							cands = append(cands, [3]int{fi, k, b})
+						}
 					}
 				}
 			}
-			ch := cands[rapid.IntRange(0, len(cands)-1).Draw(rt, "corruptBlock")]
-			fl := c.files[ch[0]]
-			fd, err := os.Open(fl.path)
-			if err != nil {
-				rt.Fatal(err)
-			}
-			r, err := NewTSMReader(fd)
-			if err != nil {
-				rt.Fatal(err)
-			}
-			es := r.Entries([]byte(c.keys[ch[1]]))
-			r.Close()
-			if ch[2] >= len(es) {
-				// the early tombstones removed the key from the index: nothing to corrupt
+			if len(cands) == 0 {
+				st.Exclude("compaction-spins-forever-on-undecodable-block")
 				inj = "none"
 			} else {
+				ch := cands[rapid.IntRange(0, len(cands)-1).Draw(rt, "corruptBlock")]
+				how := rapid.SampledFrom([]string{"len", "len", "type"}).Draw(rt, "corruptHow")
+				fl := c.files[ch[0]]
+				fd, err := os.Open(fl.path)
+				if err != nil {
+					rt.Fatal(err)
+				}
+				r, err := NewTSMReader(fd)
+				if err != nil {
+					rt.Fatal(err)
+				}
+				es := r.Entries([]byte(c.keys[ch[1]]))
+				r.Close()
+				if ch[2] >= len(es) {
+					rt.Fatalf("harness: key %d of %s has %d index entries, expected block %d", ch[1], fl.path, len(es), ch[2])
+				}
 				f, err := os.OpenFile(fl.path, os.O_RDWR, 0666)
 				if err != nil {
 					rt.Fatal(err)
 				}
-				// byte 0 of the block (after the 4 byte checksum) is the block type; decoders reject 0x55
-				if _, err := f.WriteAt([]byte{0x55}, es[ch[2]].Offset+4); err != nil {
+				// block = 4 byte checksum, 1 byte type, uvarint length of the timestamp section, ...
+				if how == "type" {
+					_, err = f.WriteAt([]byte{0x55}, es[ch[2]].Offset+4) // BlockCount works, decoders reject it
+				} else {
+					_, err = f.WriteAt([]byte{0xff, 0xff, 0xff, 0x7f}, es[ch[2]].Offset+5) // BlockCount fails
+				}
+				if err != nil {
 					rt.Fatal(err)
 				}
 				f.Close()
 				skip[c.keys[ch[1]]] = true
+				inj = "corrupt-" + how
 			}
 		}
 
@@ -248,6 +279,22 @@ func TestVerifC09Compaction(t *testing.T) {
 			}
 		}
 		check("before-compaction")
+
+		// known finding compaction-misorders-more-than-20-blocks-of-a-key: sort.Stable with the
+		// non-transitive blocks.Less is only an insertion sort (which never swaps two overlapping
+		// blocks) up to 20 elements; a key with more blocks in the group is not compared.
+		excludeManyBlocks := func(group []string) {
+			n, err := vC09GroupBlocks(fs, group, c.keys)
+			if err != nil {
+				rt.Fatalf("harness: %v", err)
+			}
+			for k, cnt := range n {
+				if cnt > vC09MaxMergeBlocks && !skip[k] {
+					skip[k] = true
+					st.Exclude("compaction-misorders-more-than-20-blocks-of-a-key")
+				}
+			}
+		}
 
 		cp := NewCompactor()
 		cp.Dir = dir
@@ -303,6 +350,7 @@ func TestVerifC09Compaction(t *testing.T) {
 			}
 		}
 
+		excludeManyBlocks(group)
 		inMax, err := vC09MaxBlockPoints(fs, group, skip)
 		if err != nil {
 			rt.Fatalf("harness: reading input block sizes: %v", err)
@@ -324,7 +372,7 @@ func TestVerifC09Compaction(t *testing.T) {
 		outcome := "ok"
 		if run.err != nil {
 			outcome = "failed"
-			expected := (inj == "abort-block" || inj == "abort-file") && fired || inj == "corrupt" || inj == "exists"
+			expected := (inj == "abort-block" || inj == "abort-file") && fired || inj == "corrupt-len" || inj == "exists"
 			if !expected {
 				rt.Fatalf("%s compaction (%s size=%d inject=%s fired=%v) failed: %v\ncase: %s", verifkit.Sig("compaction-failed-unexpectedly"), mode, size, inj, fired, run.err, strings.Join(c.describe(), "\n"))
 			}
@@ -347,7 +395,7 @@ func TestVerifC09Compaction(t *testing.T) {
 			case "exists":
 				os.Remove(junk)
 			}
-			if inj != "corrupt" {
+			if inj != "corrupt-len" {
 				// the same group must be compactable afterwards (nothing stays reserved)
 				run = vC09Compact(cp, mode == "fast", group)
 				if run.hung || run.panicked != nil || run.err != nil {
@@ -393,7 +441,9 @@ func TestVerifC09Compaction(t *testing.T) {
 			install(group, run.outs, size, inMax, "after-compaction")
 
 			// optional second round on whatever the store holds now
-			if rapid.IntRange(0, 2).Draw(rt, "secondRound") == 0 {
+			// (not with a corrupted block in the store: a second group could pair it with an
+			// overlapping block and hit the known decode spin)
+			if len(skip) == 0 && rapid.IntRange(0, 2).Draw(rt, "secondRound") == 0 {
 				gens, err := vC09Generations(fs)
 				if err != nil {
 					rt.Fatal(err)
@@ -408,6 +458,7 @@ func TestVerifC09Compaction(t *testing.T) {
 					mode2 := rapid.SampledFrom([]string{"fast", "full"}).Draw(rt, "mode2")
 					size2 := rapid.SampledFrom([]int{0, 0, 10, 1}).Draw(rt, "size2")
 					cp.Size = size2
+					excludeManyBlocks(g2)
 					inMax2, err := vC09MaxBlockPoints(fs, g2, skip)
 					if err != nil {
 						rt.Fatalf("harness: %v", err)
